@@ -672,6 +672,10 @@ class Randomizer(RandIF):
                 randomize_done(srcinfo, solve_info)
             for fm in field_model_l:
                 ConstraintOverrideRollbackVisitor.rollback(fm)
+            # Dynamic constraint blocks are only reachable through
+            # the inline constraints that reference them
+            for c in constraint_l:
+                ConstraintOverrideRollbackVisitor.rollback(c)
 
         visited = [] 
         for fm in field_model_l:
